@@ -1009,6 +1009,8 @@ struct Gen {
     /// `mut` lines issued since the last tick (to repeat them against an exactly fitting size)
     window_muts: Vec<String>,
     probe_id: u32,
+    /// the case number: scenarios keyed by it draw nothing from `rng`, so adding one leaves the other cases as they were
+    case_id: u64,
     next_ent: usize,
     next_pre: Vec<usize>,
     val: u32,
@@ -1076,15 +1078,15 @@ pub fn generate(opts: &Opts, profile: &str, out: &mut Out) {
         };
         // profile `sys`: one case in twelve runs a server whose tick wraps around during the case
         let mut cfg = cfg;
-        if profile == "sys" && id % 12 == 7 {
+        if (profile == "sys" || profile == "sys_evt") && id % 12 == 7 {
             cfg.tickbase = u32::MAX - crng.range(1, 30) as u32;
         }
         let wrap_case = cfg.tickbase != 0;
         writeln!(out, "{}", cfg.header(id)).unwrap();
         let nclients = cfg.clients;
-        let mut g = Gen { rng: crng, sys: Sys::new(cfg), buf: Vec::new(), window_muts: Vec::new(), probe_id: 0, next_ent: 0, next_pre: vec![0; nclients], val: 1 };
+        let mut g = Gen { rng: crng, sys: Sys::new(cfg), buf: Vec::new(), window_muts: Vec::new(), probe_id: 0, case_id: id, next_ent: 0, next_pre: vec![0; nclients], val: 1 };
         if wrap_case {
-            g.run_wrap();
+            g.run_wrap(profile);
         } else if profile == "sys_junk" {
             // legitimate event ids stay clear of anything short injected strings decode to
             g.val = 3_000_000_000;
@@ -1336,7 +1338,8 @@ impl Gen {
     fn event_op(&mut self) {
         let id = self.v();
         let nclients = self.sys.clients.len() as u64;
-        if self.rng.chance(1, 12) {
+        // (not in the wrap-around cases: nobody reconnects there)
+        if self.sys.cfg.tickbase == 0 && self.rng.chance(1, 12) {
             // events buffered over frames without a tick, a client joining in between, then the flush
             self.step(format!("sev ord {id} b"));
             self.step("sframe tick=0".into());
@@ -1496,6 +1499,37 @@ impl Gen {
                 let e2 = self.next_ent - 1;
                 if self.rng.chance(1, 5) { self.step(format!("cdespawn {c} {p}")); }
                 self.step(format!("map {c} {e2} {p}"));
+                if self.rng.chance(1, 6) {
+                    // the client's game despawns the adopted entity itself, with nothing for it in flight;
+                    // the server despawns its entity in the same tick window: the despawn record arrives
+                    // for a client entity that no longer exists
+                    self.step("sframe tick=1".into());
+                    self.network(0);
+                    for k in 0..self.sys.clients.len() { self.step(format!("cframe {k}")); }
+                    self.network(0);
+                    self.step("sframe tick=1".into());
+                    self.network(0);
+                    for k in 0..self.sys.clients.len() { self.step(format!("cframe {k}")); }
+                    self.network(0);
+                    // only if the entity really was adopted (it is replicated and visible to the client)
+                    let adopted = match (self.sys.ents.get(e2).copied().flatten(), self.sys.clients[c].pre.get(p).copied().flatten()) {
+                        (Some(se), Some(pe)) => !self.sys.clients[c].panicked && !self.sys.server_panicked
+                            && self.sys.clients[c].app.world().resource::<ServerEntityMap>().to_client().get(&se) == Some(&pe)
+                            && self.sys.server.world().get_entity(se).is_ok_and(|e| e.contains::<Replicated>())
+                            && self.sys.clients[c].server_side.is_some_and(|ce| {
+                                self.sys.server.world().get::<ClientVisibility>(ce).is_none_or(|v| v.is_visible(se))
+                            }),
+                        _ => false,
+                    };
+                    if adopted {
+                        self.step(format!("cdespawn {c} {p}"));
+                        self.step(format!("despawn {e2}"));
+                        self.step("sframe tick=1".into());
+                        self.network(0);
+                        self.step(format!("cframe {c}"));
+                        self.network(0);
+                    }
+                }
             }
         }
     }
@@ -1540,12 +1574,17 @@ impl Gen {
     /// first update message before anything may overtake it (a client that has received nothing
     /// cannot tell so: known finding F20), nobody reconnects; otherwise loss, delay and reordering
     /// as in the other cases.
-    fn run_wrap(&mut self) {
-        let profile = "sys";
+    fn run_wrap(&mut self, profile: &str) {
         let nclients = self.sys.clients.len();
         self.step("start".into());
-        for _ in 0..self.rng.range(1, 3) { self.spawn(profile); }
+        // one replicated entity every client can see: every client gets a first update message
+        let e0 = self.next_ent;
+        self.next_ent += 1;
+        let a = self.v();
+        self.step(format!("spawn {e0} m=1 A={a}"));
+        for _ in 0..self.rng.range(0, 2) { self.spawn(profile); }
         for c in 0..nclients { self.step(format!("connect {c}")); }
+        for c in 0..nclients { self.step(format!("vis {c} {e0} 1")); }
         self.step("sframe tick=1".into());
         self.network(0);
         for c in 0..nclients { self.step(format!("cframe {c}")); }
@@ -1601,7 +1640,7 @@ impl Gen {
                 let e = self.next_ent;
                 self.next_ent += 1;
                 let a = self.v();
-                self.step(format!("spawn {e} m=1 A={a}"));
+                self.step(format!("spawn {e} m=1 A={a} L=5"));
             }
             for _ in 0..self.rng.range(2, 3) {
                 let (x, y) = (base + self.rng.below(n as u64) as usize, base + self.rng.below(n as u64) as usize);
@@ -1620,6 +1659,28 @@ impl Gen {
             self.network(0);
             self.step("cframe 0".into());
             self.network(0);
+            if self.rng.chance(1, 3) {
+                // the server restarts; the relations are dissolved while it is down; afterwards every former
+                // member changes by 100 bytes against a max size that fits one of them
+                self.step("stop".into());
+                self.step("sframe tick=0".into());
+                for i in 0..n { self.step(format!("unrel {}", base + i)); }
+                self.step("cframe 0".into());
+                self.step("start".into());
+                self.step("connect 0".into());
+                for _ in 0..2 {
+                    self.step("sframe tick=1".into());
+                    self.network(0);
+                    self.step("cframe 0".into());
+                    self.network(0);
+                }
+                self.step("maxsize 0 130".into());
+                for i in 0..n { self.step(format!("mut {} L=100", base + i)); }
+                self.step("sframe tick=1".into());
+                self.network(5);
+                self.step("cframe 0".into());
+                self.network(0);
+            }
             self.step("maxsize 0 1".into());
             for i in 0..n { let a = self.v(); self.step(format!("mut {} A={a}", base + i)); }
             self.step("sframe tick=1".into());
@@ -1722,6 +1783,28 @@ impl Gen {
             self.step("cframe 0".into());
         }
         let steps = self.rng.range(6, 40);
+        if matches!(profile, "sys" | "sys_split") && self.case_id % 9 == 4 && !self.sys.server_panicked {
+            // a removal buffered in one frame of a tick window, its entity despawned in a later frame of the
+            // window, then a removal of another kind on another entity (no draws from `rng`)
+            let (e1, e2) = (self.next_ent, self.next_ent + 1);
+            self.next_ent += 2;
+            let (a, b) = (self.v(), self.v());
+            self.step(format!("spawn {e1} m=1 A={a} B={b}"));
+            self.step(format!("spawn {e2} m=1 A={a} B={b}"));
+            self.step("sframe tick=1".into());
+            self.network(0);
+            self.step("cframe 0".into());
+            self.network(0);
+            self.step(format!("rem {e1} A"));
+            self.step("sframe tick=0".into());
+            self.step(format!("despawn {e1}"));
+            self.step("sframe tick=0".into());
+            self.step(format!("rem {e2} B"));
+            self.step("sframe tick=1".into());
+            self.network(0);
+            self.step("cframe 0".into());
+            self.network(0);
+        }
         let nmoods = if profile == "sys_evt" { 8 } else { 6 };
         let mut mood = self.rng.below(nmoods).min(6);
         for _ in 0..steps {
